@@ -769,6 +769,12 @@ def impl_session(case):
             gw.update_fw(*a)
     for n in case["nodes"]:
         gw.logic(f"{n};255;0;0;17;{case['version']}\n")
+    if case["version"] >= "2.0" and core.case_hash([case["nodes"], case["version"]])[-1] in "0123456":
+        # the nodes are smart sleeping (a child, then the wake-up announcement of that version): firmware responses
+        # are the one kind of traffic that is NOT withheld for a sleeping node
+        for n in case["nodes"]:
+            gw.logic(f"{n};1;0;0;6;\n")
+            gw.logic(f"{n};255;3;0;{32 if case['version'] == '2.2' else 22};500\n")
     obs = []
     for k, op in enumerate(case["ops"]):
         try:
